@@ -77,6 +77,9 @@ def make_bank(rng, cont, enc):
         # first character vs. "title case": acronyms, inner capitals, digits
         words += ['NATO', 'McDonald', '3M', 'USA', "O'neil", 'Ab-cd', 'eBay',
                   '-Zeichen', 'ÄB']
+    if rng.random() < 0.3:
+        # words that look like markup of some file format
+        words += ['#', '#1', '%%', '//', ':', '-->']
     if rng.random() < 0.5:
         words += ['Übung', 'übung', 'café', 'Ärger']
         if enc == 'utf-8' and rng.random() < 0.5:
@@ -288,7 +291,8 @@ def run_api(ctx, case, rng):
         gl = lcfrs.flatten_lex(l2)
         if gl != lex:
             mech = 'rcg-own-reader-lexicon-differs'
-            if enc != 'utf-8':
+            if enc != 'utf-8' and any(ord(ch) > 127 for (w, t) in
+                                      (set(gl) ^ set(lex)) for ch in w):
                 mech = 'rcg-own-reader-ignores-encoding'
             _fail(mech, diff(gl, lex))
             return
